@@ -34,7 +34,20 @@ class Fragments(Harness):
         tcp = self.framing == "tcp"
         if self.variant == "stale_next_request":
             self.count = 7 if tcp else 5
-        if self.framing == "aa55":
+        if self.framing == "aa55d":
+            # the identification request of goodwe.discover()/connect(): module-level command, bare UDP protocol object
+            class _Bare:
+                def __init__(s_, proto, cmd_):
+                    s_._protocol, s_._cmd = proto, cmd_
+
+                def set_keep_alive(s_, ka):
+                    s_._protocol.keep_alive = ka
+
+                async def _read_from_socket(s_, c):
+                    return await c.execute(s_._protocol)
+            cmd = M.pkg.DISCOVERY_COMMAND
+            inv = _Bare(M.protocol.UdpInverterProtocol("10.0.0.1", 8899, 0, self.T, self.retries), cmd)
+        elif self.framing == "aa55":
             inv = M.es.ES("10.0.0.1", 8899, 0, self.T, self.retries)
             cmd = inv._READ_DEVICE_SETTINGS_DATA
         else:
@@ -68,6 +81,12 @@ class Fragments(Harness):
         return SBytes.of(b"\xaa\x55") + body + SBytes([c % 256, c // 256])
 
     def good(self, data, reg_shift=0):
+        if self.framing == "aa55d":
+            body = bytearray(b" " * 64)
+            body[0:5] = b"2323G"
+            body[5:15] = b"GW5048D-ES"
+            body[31:47] = b"95048ESU218W0001" if not reg_shift else b"95048ESU218W0002"
+            return aa55_response(bytes(body), (0x01, 0x82))
         if self.framing == "aa55":
             return aa55_response(bytes((i * 7 + 1 + reg_shift) % 256 for i in range(2 * self.count)))
         tcp = self.framing == "tcp"
@@ -93,6 +112,7 @@ class Fragments(Harness):
             loop = world.new_loop()
             inv, cmd = self._make(M)
             lo = 5 if self.framing == "rtu" else 9
+
 
             def on_send(sock, data, n):
                 data = bytes(data)
@@ -221,7 +241,7 @@ class Fragments(Harness):
         elif obs.outcome == "response":
             raw = obs.raw
             built = _startswith(raw, p1) if len(raw) >= len(p1) and len(raw) == len(p1) + len(P.get("p2", b"")) else False
-            if self.framing in ("rtu", "aa55") or v == "stale_tail":
+            if self.framing in ("rtu", "aa55", "aa55d") or v == "stale_tail":
                 if v == "symbolic":
                     # arbitrary second piece: a success must be exactly piece1 || piece2 with a correct checksum over
                     # the delivered bytes (any such frame is indistinguishable from a genuine answer)
@@ -234,7 +254,7 @@ class Fragments(Harness):
                         conds = [c for c in (eq, alone) if c is not False]
                         check(z3.Or([_z3b(c) for c in conds]) if conds else False,
                               "a successful result is not the concatenation of the two pieces")
-                    if self.framing == "aa55":
+                    if self.framing in ("aa55", "aa55d"):
                         items = [to_z3(b) for b in SBytes.of(raw).items]
                         check(z3.Sum(items[:-2]) == items[-2] * 256 + items[-1], "a result with a wrong checksum was delivered")
                 elif v == "stale_tail":
@@ -259,7 +279,7 @@ class Fragments(Harness):
         raw = bytes(raw)
         if self.framing == "rtu":
             return len(raw) >= 7 and len(raw) == raw[4] + 7 and crc16_reference(raw[2:-2]) == raw[-2] + 256 * raw[-1]
-        if self.framing == "aa55":
+        if self.framing in ("aa55", "aa55d"):
             return len(raw) >= 9 and len(raw) == raw[6] + 9 and sum(raw[:-2]) == raw[-2] * 256 + raw[-1]
         return True
 
@@ -356,6 +376,10 @@ def tasks(tier, seed):
                     if v == "stale_next_request" and (framing == "aa55" or c != counts[0]):
                         continue
                     ts.append({"name": f"frag-{framing}-{ka}-{c}-{v}", "framing": framing, "ka": ka, "count": c, "variant": v})
+    # the identification request of discover()/connect() (module-level command on a bare UDP protocol object)
+    for ka in (False, True):
+        for v in ("exact", "minus1", "plus1", "other_request", "stale_tail"):
+            ts.append({"name": f"frag-aa55d-{ka}-{v}", "framing": "aa55d", "ka": ka, "count": 32, "variant": v})
     return ts
 
 
@@ -376,7 +400,7 @@ def evidence_meta(tier):
                 "point enumerated over every position from the header length to L-1, delays of both pieces symbolic, "
                 "second piece exact / one byte short / one byte long / tail of another answer / symbolic bytes; plus the "
                 "stale-tail scenario (first fragment only, tail delivered for the retransmission)",
-        "bounds": {"framings": "Modbus RTU/UDP, Modbus/TCP, AA55/UDP", "keep_alive": "on/off", "counts": "2 (quick) / 1,2,7,61 (thorough)",
+        "bounds": {"framings": "Modbus RTU/UDP, Modbus/TCP, AA55/UDP (ES settings command; the identification command of discover()/connect() on a bare protocol object)", "keep_alive": "on/off", "counts": "2 (quick) / 1,2,7,61 (thorough)",
                    "delays": "0..2T+1 ticks each (symbolic), T=3", "retries": 1},
         "outside": ["more than two fragments", "symbolic payload / symbolic remainder on Modbus RTU (CRC uninterpreted on symbolic data: a "
                     "'passing' foreign remainder would be a 2^-16 collision artefact); the AA55 additive checksum is executed "
